@@ -1,0 +1,16 @@
+//go:build verif
+
+package service
+
+// Contracts for the hvc verifier (/verif). Comment-only.
+//
+// C16: "when a third-party service connection goes away, exactly the agent types [and] listeners ...
+// it registered disappear, everything registered by other connections keeps working, and the teamserver
+// keeps running": closing a client never panics whatever its position in the client list, afterwards no
+// agent type and no listener registered by it is left, and the client is out of the list.
+//@ func (s *Service) ClientClose(client *ClientService)
+//@   requires nonnil: s != nil
+//@   requires entries: forall(i, 0, len(s.clients), s.clients[i] != nil)
+//@   modifies *
+//@   ensures-local agents:    (client != nil && exists(i, 0, old(len(s.clients)), old(s.clients)[i] == client)) ==> forall(j, 0, len(s.Agents), s.Agents[j] == nil || s.Agents[j].client != client)
+//@   ensures-local listeners: (client != nil && exists(i, 0, old(len(s.clients)), old(s.clients)[i] == client)) ==> forall(j, 0, len(s.Listeners), s.Listeners[j] == nil || s.Listeners[j].client != client)
